@@ -272,7 +272,7 @@ func classify(err error) string {
 // runCase pushes one shape through the real code. mode "apply": ParseFields + Fields.Apply on an existing store
 // with lookups; mode "newstore": StoreConfig.Structs (forms never "missing": construction would wait for them).
 // slowConstructions counts constructions that waited for a secret; after a few the remaining
-// construction cases are skipped (the verdict is already a violation, and each costs 1.5 s).
+// construction cases are skipped (the verdict is already a violation, and each costs 4 s).
 var slowConstructions int
 
 func runCase(mode string, shape []field, prefix string, fm map[string]string) line {
@@ -317,12 +317,12 @@ func runCase(mode string, shape []field, prefix string, fm map[string]string) li
 	} else {
 		// every secret the fields name exists, so construction never has to wait; the deadline only keeps a
 		// wrongly requested (non-existent) secret from retrying forever
-		ctx, cancel := context.WithTimeout(context.Background(), 1500*time.Millisecond)
+		ctx, cancel := context.WithTimeout(context.Background(), 4*time.Second)
 		defer cancel()
 		t0 := time.Now()
 		var err error
 		st, err = setec.NewStore(ctx, setec.StoreConfig{Client: s, Structs: []setec.Struct{{Value: v.Interface(), Prefix: prefix}}, AllowLookup: true, PollInterval: -1, Logf: logf})
-		if d := time.Since(t0); d > time.Second {
+		if d := time.Since(t0); d > 3500*time.Millisecond {
 			slowConstructions++
 			notes = append(notes, fmt.Sprintf("construction waited %v for secrets (requested %v)", d.Round(time.Millisecond), s.reqs))
 		}
